@@ -239,7 +239,8 @@ def abs_c14(w, sess, frames, t0, hs_len, res):
             n += 1
             tun = r["cls"]["kind"] in ("ping", "data")
             holder = "%s#%s" % (r["src"], r["cls"].get("uid")) if tun else r["src"]
-            evs.append({"e": "Recv", "n": n, "src": r["src"], "holder": holder, "id": r["id"], "qn": r["qn"], "qt": r["qt"],
+            uid = r["cls"].get("uid") if tun and isinstance(r["cls"].get("uid"), int) else -1
+            evs.append({"e": "Recv", "n": n, "src": r["src"], "holder": holder, "uid": uid, "id": r["id"], "qn": r["qn"], "qt": r["qt"],
                         "tun": tun, "lk": wire.qn_str([l.lower() for l in r["labels"]])})
         elif r["k"] == "send" and not r["raw"]:
             pl = r.get("payload")
@@ -248,6 +249,8 @@ def abs_c14(w, sess, frames, t0, hs_len, res):
             if r.get("dns") and r.get("qr"):
                 evs.append({"e": "Ans", "dst": r["dst"], "id": r["id"], "qn": r["qn"], "qt": r["qt"], "hdr": hdr,
                             "lk": wire.qn_str([l.lower() for l in r["labels"]])})
+                if r["cls"]["kind"] == "version" and pl and pl[:4] == b"VACK" and len(pl) >= 9:
+                    evs.append({"e": "NewSession", "u": pl[8]})
             elif r["dst"].endswith(":53") is False and r.get("dns"):
                 evs.append({"e": "Ans", "dst": r["dst"], "id": r["id"], "qn": r["qn"], "qt": r["qt"], "hdr": hdr,
                             "lk": wire.qn_str([l.lower() for l in r["labels"]])})
